@@ -1238,7 +1238,7 @@ func (e *Env) writeOwnership(v *spec.Version, ls []*facts.Level) {
 				if fv == l.VerField && obj != nil && obj.Name() == "Decode" {
 					okWriter = true // checked by version-recorded
 				}
-				if !okWriter && obj != nil {
+				if !okWriter && (obj != nil || fn.Parent() != nil) {
 					// a helper that runs only on behalf of this level's decodeOne/constructor writes in their name
 					ctor := e.P.LookupFunc(v.Pkg, "New"+l.Spec.Name)
 					okWriter = e.privateTo(fn, func(c *ssa.Function) bool {
